@@ -13,7 +13,7 @@ from gbasis.integrals.nuclear_electron_attraction import nuclear_electron_attrac
 from gbasis.integrals.point_charge import PointChargeIntegral, point_charge_integral
 
 RULE = ("All 36 ordered pairs (l_a,l_b) in 0..5 enumerated as shards (l_a<l_b exercises the internal swap); Hypothesis "
-        "draws a basis of 2-3 generalized mixed-type shells and 1-4 charges from the position classes {on centre A, on "
+        "draws a basis of 2-3 generalized mixed-type shells and 1-5 charges from the position classes {on centre A, on "
         "centre B, midpoint, near, far 10-100 bohr, 1e-10..1e-4 off a centre, or at a drawn Boys argument 0.01-300 of a drawn primitive pair}, either sign, |q| log-uniform 0.1..100.  Oracle: McMurchie-Davidson "
         "(R2) per charge, tolerance 1e-8*sqrt(|V_aa V_bb|) for the same charge with oracle diagonals; a float-oracle "
         "deviation is confirmed by the 40-digit mpmath instantiation before it counts.  The nuclear-attraction matrix "
@@ -25,7 +25,7 @@ TOL = 1e-8
 
 @st.composite
 def charges(draw, cents, shells=None):
-    n = draw(st.integers(1, 4))
+    n = draw(st.integers(1, 5))
     pos, q, cls = [], [], []
     for _ in range(n):
         mode = draw(st.integers(0, 7))
